@@ -605,6 +605,33 @@ def scoping_programs(export=("ExportJson", "ExportProvn")):
                     for e in export:
                         q.append([e, "0"])
                     out.append(q)
+    # a reserved prefix (prov, xsd, xsi) asked for with another URI — explicitly, and through a qualified name of such a
+    # namespace — in a document and in a bundle, next to values whose printed form mentions the built-in namespaces
+    # (typed literals, booleans, times, prov:type): the built-in bindings must stay what they are
+    XSDNOHASH = "http://www.w3.org/2001/XMLSchema"
+    for where in ("doc", "bundle"):
+        for how in ("explicit", "implicit"):
+            for pfx, uri in (("xsd", XSDNOHASH), ("prov", "http://example.org/prov/"), ("xsi", "http://example.org/xsi#")):
+                c = ["d", "0"] if where == "doc" else ["b", "0", "0"]
+                p = [["NewDoc"], ["AddNs", ["d", "0"], "ex", U1], ["NewBundle", "0", ["S", "ex:b"]]]
+                if how == "explicit":
+                    p.append(["AddNs", c, pfx, uri])
+                vals = [[["S", "ex:f"], ["float", "2.5", "none", "2.5"]], [["S", "ex:b"], ["bool", "true"]],
+                        [["S", "ex:t"], ["time", "2012", "3", "31", "9", "21", "0", "0", "none"]], [["S", "ex:u"], ["id", "http://u.test/x"]],
+                        [["S", "prov:type"], ["qn", "prov", PROV, "Person"]], [["S", "ex:l"], ["lit", "tok", ["qn", "xsd", XSD, "token"], "none"]]]
+                if how == "implicit":
+                    vals.append([["Q", pfx, uri, "attr"], ["qn", pfx, uri, "val"]])
+                # names in namespaces whose URI merely begins like the XML Schema namespace: a look-alike, and (in the xsi
+                # programs only: finding C06-F4 lives there) xsi itself
+                if pfx == "xsi":
+                    vals.append([["S", "ex:nil"], ["qn", "xsi", "http://www.w3.org/2001/XMLSchema-instance", "nil"]])
+                vals.append([["Q", "xsdt", "http://www.w3.org/2001/XMLSchema-datatypes#", "unit"],
+                             ["lit", "5", ["qn", "xsdt", "http://www.w3.org/2001/XMLSchema-datatypes#", "cm"], "none"]])
+                p.append(["NewRecord", c, "Agent", ["S", "ex:ag"], vals])
+                p.append(["NewRecord", ["d", "0"], "Entity", ["S", "ex:e"], vals[:4]])
+                for e in export:
+                    p.append([e, "0"])
+                out.append(p)
     return out
 
 
